@@ -659,7 +659,7 @@ func genC17(c *Ctx) {
 
 	checkGlobals := func(opName, shape string) {
 		for _, g := range globals {
-			c.check(bytes.Equal(g.live, g.snap), opName, "modified the package-level value "+g.name, map[string]any{"case": shape, "global": g.name})
+			c17Check(c, bytes.Equal(g.live, g.snap), opName, "modified the package-level value "+g.name, map[string]any{"case": shape, "global": g.name})
 		}
 	}
 
@@ -689,14 +689,14 @@ func genC17(c *Ctx) {
 			resV := runOp(op, views)
 			for _, a := range arenas {
 				d := a.firstDiff()
-				if !c.check(d < 0, op.name, "modified its input: the "+a.name+" buffer differs after the call", map[string]any{"operation": op.name, "buffer": a.name, "first_modified_offset": d, "case": raw.shape}) {
+				if !c17Check(c, d < 0, op.name, "modified its input: the "+a.name+" buffer differs after the call", map[string]any{"operation": op.name, "buffer": a.name, "first_modified_offset": d, "case": raw.shape}) {
 					a.restore()
 				}
 			}
 			checkGlobals(op.name, raw.shape)
 			resC := runOp(op, copies)
-			c.check(resV == resC, op.name, "result on views into one buffer differs from the result on individually allocated inputs", map[string]any{"operation": op.name, "case": raw.shape})
-			c.check(!strings.HasPrefix(resV, "fault"), op.name, "panicked", map[string]any{"operation": op.name, "case": raw.shape, "panic": resV})
+			c17Check(c, resV == resC, op.name, "result on views into one buffer differs from the result on individually allocated inputs", map[string]any{"operation": op.name, "case": raw.shape})
+			c17Check(c, !strings.HasPrefix(resV, "fault"), op.name, "panicked", map[string]any{"operation": op.name, "case": raw.shape, "panic": resV})
 			c.count("arena_op:" + op.name)
 		}
 	}
@@ -751,6 +751,23 @@ func genC17(c *Ctx) {
 
 	// ---- 3. concurrency: the race-instrumented sibling binary ----
 	c17RunRaceBinary(c, r.U64()%1000000)
+}
+
+// c17Check is ctx.check with a cap of two findings per (site, what), so that a
+// defect hit by hundreds of cases does not crowd out the other kinds of finding
+// (the report keeps at most 50).
+var c17Seen = map[string]int{}
+
+func c17Check(c *Ctx, ok bool, site, what string, witness map[string]any) bool {
+	if !ok {
+		c17Seen[site+"|"+what]++
+		if c17Seen[site+"|"+what] > 2 {
+			c.oracleN++
+			c.count("findings_not_listed:" + site)
+			return false
+		}
+	}
+	return c.check(ok, site, what, witness)
 }
 
 // c17SparseSequence: blobs with namespace padding between them, reserved padding before, tail padding after.
@@ -863,7 +880,7 @@ func c17AddMemCase(c *Ctx, op string, shares [][]byte, slack int, idx []int, cap
 	args := []string{hx(arenaBytes), strings.Join(views, ",")}
 	c.add(op, args...)
 	res := safeExec(op, args)
-	c.check(strings.HasPrefix(res, "none;"), "share."+map[string]string{"memparseblobs": "ParseBlobs", "memparsetxs": "ParseTxs"}[op],
+	c17Check(c, strings.HasPrefix(res, "none;"), "share."+map[string]string{"memparseblobs": "ParseBlobs", "memparsetxs": "ParseTxs"}[op],
 		"modified the buffer its share views point into", map[string]any{"case": desc, "first_modified_offset": strings.SplitN(res, ";", 2)[0]})
 	layout := "corpus"
 	if parts := strings.Split(desc, " | "); len(parts) > 1 {
@@ -997,7 +1014,7 @@ func raceCheckCommand(args []string) int {
 	return 0
 }
 
-var raceFrameRe = regexp.MustCompile(`^\s+(github\.com/celestiaorg/go-square/v2[^\s(]*)\(`)
+var raceFrameRe = regexp.MustCompile(`^\s+(github\.com/celestiaorg/go-square/v2\S*)\(\)\s*$`)
 
 // raceReportOps extracts, from the first report of a race detector output, the
 // go-square functions on the stacks of the two conflicting accesses.
@@ -1018,8 +1035,10 @@ func raceReportOps(out string) []string {
 			break
 		}
 		if m := raceFrameRe.FindStringSubmatch(line); m != nil {
-			name := strings.TrimPrefix(m[1], "github.com/celestiaorg/go-square/v2")
-			name = strings.TrimPrefix(name, "/")
+			name := strings.TrimLeft(strings.TrimPrefix(m[1], "github.com/celestiaorg/go-square/v2"), "/.")
+			if !strings.Contains(name, ".") {
+				name = "square." + name
+			}
 			if !seen[name] {
 				seen[name] = true
 				names = append(names, name)
